@@ -32,6 +32,9 @@ CHECKS.update({
 CHECKS.update({
  "C02": ("exploration", "E3", "bounded-exhaustive enumeration: every request of per-operation argument products (all 11 operations) with control lists and message-ID positions, written by the real handle and driver to the in-memory transport, decoded by the independent RFC 4511 decoder and compared with a model built from the arguments (one element, exact PDU, canonical minimal encoding); every history of length <=2 (3 thorough) over 9 operation kinds x 8 modifier subsets against a reactive server on a virtual clock: a modifier affects exactly the next operation invoked", "6 C02", BE_NOTE),
 })
+CHECKS.update({
+ "C11": ("exploration", "E3", "bounded-exhaustive enumeration of hostile input: every byte string up to length 5 (6 thorough) over 24 BER-relevant octets and envelope-shaped prefixes with every tail through the real frame decoder; every single-field mutation of every node of 19 valid responses through the decoder and through the real driver with a single operation and with a search pending on that message ID; nesting depths up to 250000 in a child process on a 2 MiB stack; oracle: no panic, no stack overflow, a frame whose announced bytes have all arrived is delivered or rejected, a driver error is observed by every pending operation", "6 C11", BE_NOTE + "; " + E1_NOTE),
+})
 NA = {}
 import os
 props=[json.loads(l) for l in open('/verif/properties.jsonl')]
